@@ -39,6 +39,20 @@ def queries(tier):
             qs.append(Query("ascon_clean:%s:n%d" % (variant, n), "harness/C13/wipe.c", backend="c64", with_backend=False, with_spec=False,
                             repo_srcs=["src/core/ascon-clean.c"], extra_srcs=["harness/C13/clean_variants.c"], defs={"OBJ": 24, "NBYTES": n, "CLEAN_VARIANT_" + variant: 1},
                             cc_flags=cc, shape={"variant": variant, "bytes": n}, unwind=200, timeout=300))
+    # second pass on the optimised build: clang -O3 IR of the units that contain the wipes (wipe not elided)
+    from lib import irgen
+    IR_UNITS = ["src/aead/ascon-aead-inc-128.c", "src/aead/ascon-aead-inc-128a.c", "src/aead/ascon-aead-inc-80pq.c", "src/hash/ascon-xof.c", "src/hash/ascon-xofa.c",
+                "src/hash/ascon-hash.c", "src/hash/ascon-hasha.c", "src/mac/ascon-prf.c", "src/mac/ascon-hmac.c", "src/mac/ascon-hmaca.c", "src/mac/ascon-kmac.c", "src/mac/ascon-kmaca.c",
+                "src/kdf/ascon-kdf.c", "src/kdf/ascon-kdfa.c", "src/kdf/ascon-hkdf.c", "src/kdf/ascon-hkdfa.c", "src/random/ascon-prng.c", "src/isap/ascon-isap-128.c",
+                "src/isap/ascon-isap-128a.c", "src/isap/ascon-isap-80pq.c", "src/masking/ascon-masked-key.c", "src/masking/ascon-masked-state.c", "src/core/ascon-clean.c"]
+
+    def gen_ir(run_dir, q):
+        snp = {"c64": "src/core/ascon-sliced64.c", "c32": "src/core/ascon-sliced32.c", "generic": "src/core/ascon-direct-xor.c"}[q.backend]
+        return irgen.ir_c_source(run_dir, "wipe", IR_UNITS + [snp], backend=q.backend, opt="-O3", pair=False)
+    for be in (["c64"] if tier == "quick" else ["c64", "c32", "generic"]):
+        for obj, name in OBJS.items():
+            qs.append(Query("wipe-O3ir:%s:%s" % (name, be), "harness/C13/wipe.c", extra_srcs=["harness/common/ir_env.c", "harness/common/trng_stub.c"], backend=be, form="I",
+                            with_backend=False, gen_srcs=[gen_ir], defs={"OBJ": obj, "IRPASS": None}, shape={"object": name, "ir": "clang -O3"}, unwind=400, timeout=600))
     try:
         from checks import cpp_ir
         qs += cpp_ir.c13_queries(tier)
